@@ -102,6 +102,22 @@ pub fn parse_run(s: &str) -> Value {
                                 let disp = guarded(|| unq.to_string());
                                 let cow = guarded(|| unq.to_cow().into_owned());
                                 let quoted = guarded(|| unq.is_quoted());
+                                // at every position of the iterator the copy-on-write form equals what the
+                                // character iterator still yields
+                                let mid_ok = guarded(|| {
+                                    let mut u = unq.clone();
+                                    let mut k = 0usize;
+                                    loop {
+                                        let rest: String = u.clone().collect();
+                                        if u.to_cow() != rest || u.to_string() != rest {
+                                            return false;
+                                        }
+                                        k += 1;
+                                        if u.next().is_none() || k > budget {
+                                            return true;
+                                        }
+                                    }
+                                });
                                 av.push(json!({
                                     "key": slice_pos(s, key),
                                     "val": raw.map(|r| slice_pos(s, r)).unwrap_or(json!([0, 1])),
@@ -109,7 +125,7 @@ pub fn parse_run(s: &str) -> Value {
                                     "chars_ok": chars.as_ref().map(|c| !c.1 && c.2).unwrap_or(false),
                                     "disp_same": disp.as_ref().map(|d| Some(d) == chars.as_ref().map(|c| &c.0)).unwrap_or(false),
                                     "cow": cow.as_ref().map(|c| cps(c)).unwrap_or(json!([])),
-                                    "cow_ok": cow.is_some(),
+                                    "cow_ok": cow.is_some() && mid_ok == Some(true),
                                     "quoted": quoted.unwrap_or(false),
                                 }));
                             }
